@@ -214,8 +214,6 @@ def moved_item_stream(ctx, res, n):
         if raised and (before != after or members != members2):
             res.violate("C06:rejected-list-op-changed-another-list", "a rejected insertion / replacement of a configuration that sits in another list changed that list",
                         dict(case, lengths_before=[len(m) for m in members], lengths_after=[len(m) for m in members2]))
-        if not raised and why == "other-schema":
-            res.violate("C06:foreign-item-accepted", "a configuration of another schema was accepted as a list item", case)
 
 
 def P_same(a, b):
